@@ -8,8 +8,9 @@ by the driver (`NGF.Driver.C20`) against the real validators.
       `ipv6_compressed_mixed_is_host`, `resource_name_iff`, `namespace_name_iff`, `namespaced_name_iff`,
       `controller_name_accepts_documented`, `port_flag_accepts_documented`
   nothing unsafe                  : `endpoint_accepted_safe`, `endpointopt_accepted_lexically_safe`,
-      `endpointopt_accepted_nginx_addr_partial` (+ `endpointopt_accepts_non_nginx_addr`: witnesses of the five
-      known findings, `bare_ipv6_accepted_but_not_nginx_addr`, `endpointopt_rejects_bracketed_v6_without_port`), `endpointopt_repaired_nginx_addr`,
+      `endpointopt_accepted_nginx_addr` (FULL STRENGTH since the fixes 746dbb2 + 15df172),
+      `prefix_accepts_non_nginx_addr`, `current_refuses_prefix_witnesses`, `bare_ipv6_needs_the_generator_brackets`
+      (regression detectors for the two fix commits), `mgmt_conf_addresses`,
       `resource_name_safe`, `controller_name_sound`, `port_flag_sound`, `resolver_line_one_argument`,
       `usage_report_line_one_argument`, `mgmt_conf_verbatim`
   conflicts rejected before start : `collisions_iff_nodup`, `static_port_collision_rejected`,
@@ -68,11 +69,32 @@ theorem facts_pinned :
       ["SecretName: usageReportSecretName.value", "ClientSSLSecretName: usageReportClientSSLSecretName.value",
        "CASecretName: usageReportCASecretName.value", "Endpoint: usageReportEndpoint.value",
        "Resolver: usageReportResolver.value", "SkipVerify: usageReportSkipVerify"] ∧
-    NGF.Generated.Cli.mgmtEndpointFromEndpointFlag = true ∧
-    NGF.Generated.Cli.mgmtResolverFromResolverFlag = true ∧
+    NGF.Generated.Cli.mgmtConfWiring =
+      ["Endpoint: nginxAddr(g.usageReportConfig.Endpoint)", "Resolver: nginxAddr(g.usageReportConfig.Resolver)",
+       "LicenseTokenFile: tokenFile.Path", "SkipVerify: g.usageReportConfig.SkipVerify"] ∧
+    NGF.Generated.Cli.nginxAddrBody =
+      ["if strings.Contains(v, \":\") && net.ParseIP(v) != nil { return \"[\" + v + \"]\" }", "return v"] ∧
+    NGF.Generated.Cli.validateEndpointOptionalPortBody =
+      ["if len(value) == 0 { return errors.New(\"must be set\") }",
+       "host, port, err := net.SplitHostPort(value)",
+       "if err != nil && (!strings.Contains(err.Error(), \"missing port\") && !strings.Contains(err.Error(), \"too many colons\")) { return fmt.Errorf(\"error splitting %q into host and port: %w\", value, err) }",
+       "if err == nil { if port == \"\" || port[0] == '+' || port[0] == '-' { return fmt.Errorf(\"port must be a valid number: %q\", port) } if strings.HasPrefix(value, \"[\") && !strings.Contains(host, \":\") { return fmt.Errorf(\"%q: only IPv6 addresses may be enclosed in brackets\", value) } if host == \"unix\" { return fmt.Errorf(\"%q: NGINX reads the host name \\\"unix\\\" followed by a colon as a unix socket\", value) } portVal, err := strconv.ParseInt(port, 10, 32) if err != nil { return fmt.Errorf(\"port must be a valid number: %w\", err) } if portVal < 1 || portVal > 65535 { return fmt.Errorf(\"port outside of valid port range [1 - 65535]: %v\", port) } }",
+       "if host == \"\" { host = value }",
+       "if err := validateIP(host); err == nil { return nil }",
+       "if errs := validation.IsDNS1123Subdomain(host); len(errs) == 0 { return nil }",
+       "return fmt.Errorf(\"%q must be a domain name or IP address with optional port\", value)"] ∧
+    NGF.Generated.Cli.validateEndpointBody =
+      ["host, port, err := net.SplitHostPort(endpoint)",
+       "if err != nil { return fmt.Errorf(\"%q must be in the format <host>:<port>: %w\", endpoint, err) }",
+       "portVal, err := strconv.ParseInt(port, 10, 32)",
+       "if err != nil { return fmt.Errorf(\"port must be a valid number: %w\", err) }",
+       "if portVal < 1 || portVal > 65535 { return fmt.Errorf(\"port outside of valid port range [1 - 65535]: %v\", port) }",
+       "if err := validateIP(host); err == nil { return nil }",
+       "if errs := validation.IsDNS1123Subdomain(host); len(errs) == 0 { return nil }",
+       "return fmt.Errorf(\"%q must be in the format <host>:<port>\", endpoint)"] ∧
     NGF.Generated.Cli.stringSetBody =
       ["if err := v.validator(param); err != nil { return err }", "v.value = param", "return nil"] := by
-  refine ⟨rfl, rfl, rfl, rfl, rfl, rfl, rfl, rfl⟩
+  refine ⟨rfl, rfl, rfl, rfl, rfl, rfl, rfl, rfl, rfl, rfl⟩
 
 /-- the holes of the mgmt template that receive flag values: both are bare arguments terminated by ';' -/
 theorem mgmt_template_pinned :
@@ -105,17 +127,17 @@ theorem endpoint_accepts_all_ports_bracketed (h : Str) (p : Nat) (hk : hostOK h 
                    omega)
 
 theorem endpointopt_accepts_all_ports (h : Str) (p : Nat) (hk : hostOK h = true) (hc : ':' ∉ h)
-    (h1 : 1 ≤ p) (h2 : p ≤ 65535) :
+    (hu : h ≠ "unix".toList) (h1 : 1 ≤ p) (h2 : p ≤ 65535) :
     validateEndpointOptionalPort genCfg (h ++ ':' :: Nat.toDigits 10 p) = .ok :=
-  validateOpt_plain (cfg := genCfg) (by decide) (by decide) hk hc
+  validateOpt_plain (cfg := genCfg) (by decide) (by decide) hk hc hu
     (by have : genCfg.optLo = 1 := by decide
         omega) (by have : genCfg.optHi = 65535 := by decide
                    omega)
 
-theorem endpointopt_accepts_all_ports_bracketed (h : Str) (p : Nat) (hk : hostOK h = true)
+theorem endpointopt_accepts_all_ports_bracketed (h : Str) (p : Nat) (hk : hostOK h = true) (hc : ':' ∈ h)
     (h1 : 1 ≤ p) (h2 : p ≤ 65535) :
     validateEndpointOptionalPort genCfg ('[' :: (h ++ ']' :: ':' :: Nat.toDigits 10 p)) = .ok :=
-  validateOpt_bracket (cfg := genCfg) (by decide) (by decide) hk
+  validateOpt_bracket (cfg := genCfg) (by decide) (by decide) hk hc
     (by have : genCfg.optLo = 1 := by decide
         omega) (by have : genCfg.optHi = 65535 := by decide
                    omega)
@@ -123,6 +145,17 @@ theorem endpointopt_accepts_all_ports_bracketed (h : Str) (p : Nat) (hk : hostOK
 /-- a host without port (dotted IPv4 or DNS name) is accepted by the optional-port validator -/
 theorem endpointopt_accepts_bare_host (h : Str) (hk : hostOK h = true) (hc : ':' ∉ h) :
     validateEndpointOptionalPort genCfg h = .ok := validateOpt_bare hk hc
+
+/-- … and so is every IPv6 literal without brackets (the repo's tests document it as valid; the generator
+adds the brackets) -/
+theorem endpointopt_accepts_bare_ipv6 (h : Str) (hp : parseIP h = true) (hc : ':' ∈ h) :
+    validateEndpointOptionalPort genCfg h = .ok := bare_v6_accepted hp hc
+
+/-- the only host name the stricter validator gives up: `unix:<port>`, which NGINX would read as a socket path -/
+theorem endpointopt_unix_host_refused :
+    validateEndpointOptionalPort genCfg "unix:53".toList = .unix ∧
+    validateEndpointOptionalPort genCfg "unix".toList = .ok ∧
+    validateEndpoint genCfg "unix:53".toList = .ok := by decide
 
 /-- the hosts of the statements above are not vacuous: every dotted quad … -/
 theorem ipv4_quad_is_host (a b c d : Nat) (ha : a < 256) (hb : b < 256) (hc : c < 256) (hd : d < 256) :
@@ -218,55 +251,50 @@ no `; { } " ' $ # \`, not empty -/
 theorem endpointopt_accepted_lexically_safe (s : Str) (h : validateEndpointOptionalPort genCfg s = .ok) :
     safeBareArg s = true := validateOpt_safe h
 
-/-- FULL STRENGTH FAILS: an accepted value need not be an NGINX `address[:port]`.  Witnesses of the
-five classes (the known findings `C20:nginx-addr-*`), each accepted by the model of the validator
-and refused by the model of `ngx_parse_url`: -/
-theorem endpointopt_accepts_non_nginx_addr :
-    (validateEndpointOptionalPort genCfg "::1".toList = .ok ∧ nginxAddrOk "::1".toList = false) ∧
-    (validateEndpointOptionalPort genCfg "host:".toList = .ok ∧ nginxAddrOk "host:".toList = false) ∧
-    (validateEndpointOptionalPort genCfg "host:+80".toList = .ok ∧ nginxAddrOk "host:+80".toList = false) ∧
-    (validateEndpointOptionalPort genCfg "[1.2.3.4]:80".toList = .ok ∧ nginxAddrOk "[1.2.3.4]:80".toList = false) ∧
-    (validateEndpointOptionalPort genCfg "unix:53".toList = .ok ∧ nginxAddrOk "unix:53".toList = false) := by
+/-- FULL STRENGTH (main theorem since 746dbb2 + 15df172): every value `validateEndpointOptionalPort` accepts
+is, after the generator's `nginxAddr` (brackets around a bare IPv6 address), an NGINX `address[:port]` in
+the sense of `ngx_parse_url` -/
+theorem endpointopt_accepted_nginx_addr (s : Str) (h : validateEndpointOptionalPort genCfg s = .ok) :
+    nginxAddrOk (nginxAddr s) = true :=
+  validateOpt_nginx_addr (by decide) (by decide) h
+
+example : validateEndpointOptionalPort genCfg "dns.example.com:53".toList = .ok ∧
+    nginxAddr "dns.example.com:53".toList = "dns.example.com:53".toList := by decide
+example : validateEndpointOptionalPort genCfg "2001:db8::1".toList = .ok ∧
+    nginxAddr "2001:db8::1".toList = "[2001:db8::1]".toList := by decide
+example : validateEndpointOptionalPort genCfg "[2001:db8::1]:53".toList = .ok := by decide
+
+/-- REGRESSION DETECTORS — the pre-fix validator (`validateEndpointOptionalPortPreFix`, before 746dbb2) and
+the pre-fix rendering (verbatim, before 15df172) violate the statement on these witnesses; the current
+validator refuses four of them and the current generator brackets the fifth.  Reverting either commit makes
+the real code behave like the pre-fix variant again and is reported with the signatures `C20:nginx-addr-*`. -/
+theorem prefix_accepts_non_nginx_addr :
+    (validateEndpointOptionalPortPreFix genCfg "::1".toList = .ok ∧ nginxAddrOk "::1".toList = false) ∧
+    (validateEndpointOptionalPortPreFix genCfg "host:".toList = .ok ∧ nginxAddrOk "host:".toList = false) ∧
+    (validateEndpointOptionalPortPreFix genCfg "host:+80".toList = .ok ∧ nginxAddrOk "host:+80".toList = false) ∧
+    (validateEndpointOptionalPortPreFix genCfg "[1.2.3.4]:80".toList = .ok ∧ nginxAddrOk "[1.2.3.4]:80".toList = false) ∧
+    (validateEndpointOptionalPortPreFix genCfg "unix:53".toList = .ok ∧ nginxAddrOk "unix:53".toList = false) := by
   decide
 
-/-- the first class in general: EVERY IPv6 literal without brackets is accepted and is not an NGINX address -/
-theorem bare_ipv6_accepted_but_not_nginx_addr (h : Str) (hp : parseIP h = true) (hc : ':' ∈ h) :
-    validateEndpointOptionalPort genCfg h = .ok ∧ nginxAddrOk h = false :=
-  ⟨bare_v6_accepted hp hc, bare_v6_not_nginx_addr hp hc⟩
+theorem current_refuses_prefix_witnesses :
+    validateEndpointOptionalPort genCfg "host:".toList = .portnum ∧
+    validateEndpointOptionalPort genCfg "[::1]:".toList = .portnum ∧
+    validateEndpointOptionalPort genCfg "host:+80".toList = .portnum ∧
+    validateEndpointOptionalPort genCfg "host:-80".toList = .portnum ∧
+    validateEndpointOptionalPort genCfg "[1.2.3.4]:80".toList = .bracket ∧
+    validateEndpointOptionalPort genCfg "[example.com]:80".toList = .bracket ∧
+    validateEndpointOptionalPort genCfg "unix:53".toList = .unix := by decide
 
-/-- … while the only NGINX spelling of an IPv6 resolver without port is refused -/
+/-- a bare IPv6 literal is still accepted, is not an NGINX address verbatim (why 15df172 was needed), and is one
+once bracketed -/
+theorem bare_ipv6_needs_the_generator_brackets (h : Str) (hp : parseIP h = true) (hc : ':' ∈ h) :
+    validateEndpointOptionalPort genCfg h = .ok ∧ nginxAddrOk h = false ∧ nginxAddrOk (nginxAddr h) = true :=
+  ⟨bare_v6_accepted hp hc, bare_v6_not_nginx_addr hp hc, bracketV6_nginx_addr hp hc⟩
+
+/-- still refused (as before the fixes): the bracketed IPv6 spelling without port -/
 theorem endpointopt_rejects_bracketed_v6_without_port :
     validateEndpointOptionalPort genCfg "[::1]".toList = .host ∧ nginxAddrOk "[::1]".toList = true := by
   decide
-
-/-- `_partial`: outside those five classes every accepted value is an NGINX address -/
-theorem endpointopt_accepted_nginx_addr_partial (s : Str) (h : validateEndpointOptionalPort genCfg s = .ok)
-    (hd : addrDefect s = none) : nginxAddrOk s = true :=
-  validateOpt_nginx_addr (by decide) (by decide) h hd
-
-example : addrDefect "dns.example.com:53".toList = none ∧
-    validateEndpointOptionalPort genCfg "dns.example.com:53".toList = .ok := by decide
-example : addrDefect "[2001:db8::1]:53".toList = none ∧
-    validateEndpointOptionalPort genCfg "[2001:db8::1]:53".toList = .ok := by decide
-
-/-- the repaired variant (candidate fix: the generator puts a bare IPv6 address between brackets,
-`bracketV6`): outside the four remaining classes the rendered argument is an NGINX address -/
-theorem endpointopt_repaired_nginx_addr (s : Str) (h : validateEndpointOptionalPort genCfg s = .ok)
-    (hd : addrDefect s = none ∨ addrDefect s = some "bare-ipv6") : nginxAddrOk (bracketV6 s) = true := by
-  by_cases hb : (s.contains ':' && parseIP s) = true
-  · simp only [Bool.and_eq_true] at hb
-    exact bracketV6_nginx_addr hb.2 (List.contains_iff_mem.mp hb.1)
-  · have hb' : (s.contains ':' && parseIP s) = false := by simpa using hb
-    rw [bracketV6_id hb']
-    rcases hd with hd | hd
-    · exact endpointopt_accepted_nginx_addr_partial s h hd
-    · unfold addrDefect at hd
-      rw [hb'] at hd
-      simp only [Bool.false_eq_true, if_false] at hd
-      split at hd
-      · repeat' split at hd
-        all_goals simp at hd
-      · simp at hd
 
 /-- embedded verbatim, a lexically safe value is exactly one argument of its directive -/
 theorem resolver_line_one_argument (v : Str) (hs : safeBareArg v = true) :
@@ -279,17 +307,23 @@ theorem usage_report_line_one_argument (v : Str) (hs : safeBareArg v = true) :
   simp only [safeBareArg, Bool.and_eq_true] at hs
   exact usage_report_line_verbatim hs.2
 
-/-- the whole file: for accepted (or absent) endpoint and resolver values the text of the mgmt template
-(`renderMgmt`, compared with the real template's output on every run) parses to exactly the intended
-directives, each value being one argument -/
+/-- the whole file: for accepted (or absent) endpoint and resolver values the text `generateMgmtFiles`
+produces (`renderMgmt` = template ∘ `nginxAddr`, compared with the real generator's output on every run)
+parses to exactly the intended directives, each value (bracketed if a bare IPv6 address) being one argument -/
 theorem mgmt_conf_verbatim (ep res : Str)
     (hep : ep = [] ∨ validateEndpointOptionalPort genCfg ep = .ok)
     (hres : res = [] ∨ validateEndpointOptionalPort genCfg res = .ok) :
-    mgmtConfOK (renderMgmt ep res) ep res = true :=
-  mgmtConfOK_render (hep.imp id validateOpt_safe) (hres.imp id validateOpt_safe)
+    mgmtConfOK (renderMgmt ep res) (nginxAddr ep) (nginxAddr res) = true :=
+  mgmtConfOK_generated (hep.imp id validateOpt_safe) (hres.imp id validateOpt_safe)
 
-example : renderMgmt "a:1".toList "[::1]:53".toList =
-    "\nmgmt {\n\tusage_report endpoint=a:1;\n\tresolver [::1]:53;\n\tlicense_token /etc/nginx/secrets/license.jwt;\n\tdeployment_context /etc/nginx/main-includes/deployment_ctx.json;\n}\n".toList := by
+/-- … and both arguments are NGINX addresses -/
+theorem mgmt_conf_addresses (ep res : Str)
+    (hep : validateEndpointOptionalPort genCfg ep = .ok) (hres : validateEndpointOptionalPort genCfg res = .ok) :
+    nginxAddrOk (nginxAddr ep) = true ∧ nginxAddrOk (nginxAddr res) = true :=
+  ⟨endpointopt_accepted_nginx_addr ep hep, endpointopt_accepted_nginx_addr res hres⟩
+
+example : renderMgmt "a:1".toList "::1".toList =
+    "\nmgmt {\n\tusage_report endpoint=a:1;\n\tresolver [::1];\n\tlicense_token /etc/nginx/secrets/license.jwt;\n\tdeployment_context /etc/nginx/main-includes/deployment_ctx.json;\n}\n".toList := by
   decide +kernel
 
 /-- an accepted resource name is a legal Kubernetes object name and a safe token -/
